@@ -6,7 +6,12 @@ invariants at the call boundary:
   C11  after every mutating Circuit method the reported metadata equals the recomputation over the gate list; a rejected
        add_gate leaves no trace; read-only operations (copy, inverse, +, *, depth, split, stack, translate) leave their
        operands unchanged;
-  C16  binary arithmetic of Tangelo's FermionOperator / QubitHamiltonian leaves both operands unchanged.
+  C16  binary arithmetic of Tangelo's FermionOperator / QubitHamiltonian leaves both operands unchanged;
+  C01  every noiseless Backend.simulate call of the cirq / sympy simulators on a small numeric measurement-free circuit returns
+       the frequencies of the reference simulation (exact mode: equal; sampled mode: support inclusion and normalisation);
+  C02  every exact-mode get_expectation_value on such a circuit equals <psi|H|psi> of the reference simulation;
+  C09  every in-place optimisation pass keeps the unitary (up to a global phase / the dropped-rotation allowance);
+  C17  every Tangelo -> cirq translation of a small numeric circuit has the unitary of the reference simulation.
 
 Observations are appended to the JSONL file named by VERIF_LIVEMON_OUT ({"monitor":..., "ok":bool, ...}); evaluation
 counters are flushed at interpreter exit.  Monitors only record - they never raise into the observed program.
@@ -51,8 +56,16 @@ def _meta_ok(c):
     return None
 
 
+_last_flush = [0.0]
+
+
 def _record(monitor, ok, **info):
+    import time
     _counts[monitor] += 1
+    if _OUT and time.time() - _last_flush[0] > 20:
+        if _last_flush[0]:
+            _flush()
+        _last_flush[0] = time.time()
     if not ok and len(_viol) < MAX_VIOL:
         info["monitor"] = monitor
         info["stack"] = "".join(traceback.format_stack(limit=8)[:-2])[-1500:]
@@ -196,6 +209,165 @@ def install():
             wrap_arith(QubitHamiltonian, nm)
     except Exception:
         pass
+
+
+def _numeric_gates(c, max_width, max_size):
+    """refsim gate tuples of a small, purely numeric, measurement-free circuit (else None)."""
+    import numbers
+    from vlib import refsim
+    if not (0 < c.width <= max_width) or len(c._gates) > max_size:
+        return None
+    out = []
+    for g in c._gates:
+        if g.name not in refsim.SUPPORTED:
+            return None
+        par = g.parameter
+        if g.name in refsim.PARAM:
+            if isinstance(par, bool) or not isinstance(par, numbers.Real):
+                return None
+            par = float(par)
+        out.append((g.name, list(g.target), None if g.control is None else list(g.control), par))
+    return out
+
+
+def install_semantic(which=("C01", "C02", "C09", "C17")):
+    """Reference-model monitors on Backend.simulate / get_expectation_value, the in-place passes and the cirq translator."""
+    import numpy as np
+    from vlib import refsim
+    from tangelo.linq import Circuit
+    import tangelo.linq.target.backend as bmod
+    Backend = bmod.Backend
+
+    def plain_backend(be):
+        return type(be).__name__ in ("CirqSimulator", "SympySimulator") and not getattr(be, "_noise_model", None)
+
+    def ref_state(be, circ, initial_statevector):
+        gl = _numeric_gates(circ, 9, 600)
+        if gl is None:
+            return None, None
+        init = None
+        if initial_statevector is not None:
+            if type(be).__name__ != "CirqSimulator":
+                return None, None
+            init = np.asarray(initial_statevector, dtype=complex).reshape(-1)
+            if init.size != 2 ** circ.width or abs(np.linalg.norm(init) - 1) > 1e-8:
+                return None, None
+        return gl, refsim.run(gl, circ.width, init)
+
+    orig_sim = Backend.simulate
+
+    @functools.wraps(orig_sim)
+    def simulate(self, source_circuit, return_statevector=False, initial_statevector=None, desired_meas_result=None, save_mid_circuit_meas=False):
+        r = orig_sim(self, source_circuit, return_statevector=return_statevector, initial_statevector=initial_statevector,
+                     desired_meas_result=desired_meas_result, save_mid_circuit_meas=save_mid_circuit_meas)
+        try:
+            if isinstance(source_circuit, Circuit) and plain_backend(self) and desired_meas_result is None and not save_mid_circuit_meas:
+                gl, vec = ref_state(self, source_circuit, initial_statevector)
+                if vec is not None:
+                    n = source_circuit.width
+                    ef = refsim.freq_dict(vec, n, threshold=0.0)
+                    freqs = {k: float(v) for k, v in r[0].items()}
+                    name = type(self).__name__
+                    if self.n_shots is None:
+                        ok = all(len(k) == n for k in freqs) and all(abs(freqs.get(k, 0.0) - v) < 1e-6 for k, v in ef.items())
+                        _record(f"simulate_exact_{name}", ok, gates=repr(gl)[:800], got=repr(freqs)[:400], expected=repr({k: v for k, v in ef.items() if v > 1e-9})[:400])
+                    else:
+                        ok = all(len(k) == n and ef.get(k, 0.0) > 1e-12 for k in freqs) and abs(sum(freqs.values()) - 1) < 1e-6
+                        _record(f"simulate_sampled_support_{name}", ok, gates=repr(gl)[:800], got=repr(freqs)[:400])
+        except Exception as e:
+            _record("monitor_error", True, err=repr(e))
+        return r
+    if "C01" in which:
+        Backend.simulate = simulate
+
+    orig_exp = Backend.get_expectation_value
+    depth = [0]
+
+    @functools.wraps(orig_exp)
+    def get_expectation_value(self, qubit_operator, state_prep_circuit, initial_statevector=None, desired_meas_result=None):
+        depth[0] += 1
+        try:
+            r = orig_exp(self, qubit_operator, state_prep_circuit, initial_statevector=initial_statevector, desired_meas_result=desired_meas_result)
+        finally:
+            depth[0] -= 1
+        try:
+            if depth[0] == 0 and isinstance(state_prep_circuit, Circuit) and plain_backend(self) and self.n_shots is None \
+                    and desired_meas_result is None and len(qubit_operator.terms) <= 400:
+                gl, vec = ref_state(self, state_prep_circuit, initial_statevector)
+                if vec is not None:
+                    terms = {t: complex(c) for t, c in qubit_operator.terms.items()}
+                    want = refsim.expectation(terms, vec, state_prep_circuit.width)
+                    got = complex(r)
+                    scale = 1 + sum(abs(c) for c in terms.values())
+                    _record(f"expectation_exact_{type(self).__name__}", abs(got - want) < 1e-6 * scale, gates=repr(gl)[:800],
+                            operator=repr(terms)[:600], got=repr(got), expected=repr(want))
+        except Exception as e:
+            _record("monitor_error", True, err=repr(e))
+        return r
+    if "C02" in which:
+        Backend.get_expectation_value = get_expectation_value
+
+    # ---- C09: in-place passes keep the unitary
+    def wrap_pass(name):
+        orig = getattr(Circuit, name)
+
+        @functools.wraps(orig)
+        def w(self, *a, **k):
+            gl0 = _numeric_gates(self, 6, 300)
+            w0 = self.width
+            r = orig(self, *a, **k)
+            try:
+                removeq = k.get("remove_qubits", False) or (name in ("remove_small_rotations", "remove_redundant_gates") and len(a) >= (2 if name == "remove_small_rotations" else 1) and a[-1] is True) \
+                    or (name == "simplify" and len(a) >= 3 and a[2])
+                if gl0 is not None and not removeq:
+                    gl1 = _numeric_gates(self, 6, 300) if self.width else []
+                    if gl1 is not None and self.width <= w0:
+                        u0, u1 = refsim.unitary(gl0, w0), refsim.unitary(gl1, w0)
+                        thr = 0.0
+                        if name in ("remove_small_rotations", "simplify"):
+                            pt = k.get("param_threshold", (a[0] if name == "remove_small_rotations" and a else (a[1] if name == "simplify" and len(a) > 1 else 1e-3)))
+                            thr = float(pt) * max(0, len(gl0) - len(gl1))
+                        b2 = refsim.phase_align(u0, u1)
+                        d = float(np.linalg.norm(u0 - b2, 2))
+                        _record("pass_keeps_unitary_" + name, d <= thr + 1e-7, before=repr(gl0)[:800], after=repr(gl1)[:800], distance=d, allowance=thr)
+            except Exception as e:
+                _record("monitor_error", True, err=repr(e))
+            return r
+        setattr(Circuit, name, w)
+
+    if "C09" in which:
+        for nm in ("remove_small_rotations", "remove_redundant_gates", "merge_rotations", "simplify"):
+            wrap_pass(nm)
+    if "C17" not in which:
+        return
+
+    # ---- C17: Tangelo -> cirq translation has the reference unitary
+    import importlib
+    import sys as _sys
+    tmod = importlib.import_module("tangelo.linq.translator.translate_circuit")
+    cur = tmod.translate_circuit
+
+    @functools.wraps(cur)
+    def tr(circuit, target, source="tangelo", output_options=None):
+        r = cur(circuit, target, source=source, output_options=output_options)
+        try:
+            if str(target).lower() == "cirq" and str(source).lower() == "tangelo" and isinstance(circuit, Circuit) \
+                    and not (output_options or {}).get("noise_model") and not (output_options or {}).get("save_measurements"):
+                gl = _numeric_gates(circuit, 5, 200)
+                if gl is not None:
+                    import cirq
+                    n = circuit.width
+                    uc = r.unitary(qubit_order=cirq.LineQubit.range(n), qubits_that_should_be_present=cirq.LineQubit.range(n))
+                    d = float(np.abs(uc - refsim.unitary(gl, n)).max())
+                    _record("translate_cirq_unitary", d < 1e-7, gates=repr(gl)[:800], distance=d)
+        except Exception as e:
+            _record("monitor_error", True, err=repr(e))
+        return r
+    for mname, mod in list(_sys.modules.items()):
+        if mname.startswith("tangelo") and mod is not None:
+            for attr, val in list(vars(mod).items()):
+                if val is cur:
+                    setattr(mod, attr, tr)
 
 
 def read_results(path):
